@@ -253,9 +253,9 @@ func (vc *VC) getGhost(st *State, name string, key string, sort string) string {
 
 // rvInterface: the interface value a reflect.Value of a whole message yields.
 func (vc *VC) rvInterface(v Val) Val {
-	vc.declareFun("RVTag", []string{sBV64}, sBV64)
+	vc.declareRVFuncs()
 	it := types.NewInterfaceType(nil, nil)
-	return Val{T: it, L: []string{app("RVTag", v.L[1]), v.L[0]}}
+	return Val{T: it, L: []string{ite(app("bvult", v.L[iMt], bvLit(64, rvElemV)), app("RVTag", v.L[iMt]), v.L[iTTag]), v.L[iObj]}}
 }
 
 // errTarget describes one error value used as an errors.Is target.
